@@ -54,13 +54,21 @@ def fingerprint_hostname(hostname, strip_suffix=False):
 
 
 def get_fingerprinted_hostname(url, infer_redirection=True, strip_suffix=False):
-    if infer_redirection:
-        url = resolve(url)
-
     if isinstance(url, SplitResult):
         splitted = url
     else:
-        # NOTE: same cleaning as fingerprint_url
+        # NOTE: same preprocessing as fingerprint_url, else both functions
+        # would not infer the same redirections
+        try:
+            url = canonicalize_url(url)
+        except ValueError:
+            pass
+
+        url = url.lower()
+
+        if infer_redirection:
+            url = resolve(url)
+
         url = CONTROL_CHARS_RE.sub("", url).strip()
 
         try:
